@@ -15,6 +15,7 @@ import Nitime.Model.Units
 import Nitime.Model.Proto
 import Nitime.Generated.Units
 import Nitime.Generated.C01Ctor
+import Nitime.Generated.C01Fail
 
 namespace Nitime.C01
 open Nitime
@@ -285,6 +286,137 @@ def trace (D : Discipline) (o : TObj) : List Step → List TObj
 
 def lastO (D : Discipline) (o : TObj) (ss : List Step) : TObj := (trace D o ss).getLastD o
 
+/-! ### failure paths (round 2, class L7): refused calls and partial updates
+
+A call may be REFUSED (`convert_unit(None)`, `convert_unit('bogus')`, `TimeArray(o, time_unit='bogus')`, an operator
+with an operand that does not broadcast, a reduction with an unsupported argument …).  What the refused call leaves
+behind on the object is decided by the ORDER of attribute writes and raises in the method body — the generated event
+list `Generated.C01Fail.convertUnitEvents` — executed by `execEvents`. -/
+
+/-- classes of values handed over as a unit -/
+inductive UnitArg where
+  | unit (u : TimeUnit)   -- a unit name
+  | none                  -- `None`: a key of the table too (the constructors' "not given"), reads as seconds
+  | bogus                 -- not a key: another string, a number, an unhashable object
+  deriving Repr, DecidableEq
+
+def UnitArg.isKey : UnitArg → Bool
+  | .bogus => false
+  | _ => true
+
+/-- the label the object reports after `self.time_unit = <arg>` (`none` = names no unit) -/
+def UnitArg.label? : UnitArg → Option TimeUnit
+  | .unit u => some u
+  | .none => some .s
+  | .bogus => Option.none
+
+def UnitArg.factor : UnitArg → Nat
+  | .unit u => Generated.factor u
+  | .none => Generated.factorNone
+  | .bogus => 0
+
+/-- the two attributes as they may be left by a partial update -/
+structure RawAttrs where
+  label : Option TimeUnit
+  fac : Nat
+  deriving Repr, DecidableEq
+
+def Attrs.raw (a : Attrs) : RawAttrs := ⟨some a.label, a.fac⟩
+
+def _root_.Nitime.C01Attr.Ev.isWrite : Ev → Bool
+  | .writeLabel | .writeFactor => true
+  | _ => false
+
+def _root_.Nitime.C01Attr.Ev.canRaise : Ev → Bool
+  | .lookup | .raiseIfNone | .raiseIfInvalid | .raiseOther | .unknown => true
+  | _ => false
+
+/-- runs the events of one call: (attributes left, raised?) -/
+def execEvents : List Ev → UnitArg → RawAttrs → RawAttrs × Bool
+  | [], _, st => (st, false)
+  | .writeLabel :: es, a, st => execEvents es a { st with label := a.label? }
+  | .writeFactor :: es, a, st => execEvents es a { st with fac := a.factor }
+  | .lookup :: es, a, st => if a.isKey then execEvents es a st else (st, true)
+  | .raiseIfNone :: es, a, st => if a = .none then (st, true) else execEvents es a st
+  | .raiseIfInvalid :: es, a, st => if a.isKey then execEvents es a st else (st, true)
+  | .raiseOther :: es, a, st => execEvents es a st     -- guard not met by the argument classes above
+  | .unknown :: es, a, st => execEvents es a st
+
+def noRaise (es : List Ev) : Bool := es.all (fun e => !e.canRaise)
+
+/-- no attribute is written before something that can still raise -/
+def atomic : List Ev → Bool
+  | [] => true
+  | e :: es => if e.isWrite then noRaise es else (e != Ev.unknown && atomic es)
+
+/-- the failure-path facts of one class of time objects -/
+structure FailDiscipline where
+  convertEvents : List Ev
+  /-- methods that write `self.time_unit` / `self._conversion_factor` -/
+  attrWriters : List String
+  /-- the constructor assigns to / works in place on its `data` argument -/
+  newTouchesArgument : Bool
+
+def FailDiscipline.current : FailDiscipline :=
+  { convertEvents := Generated.C01Fail.convertUnitEvents, attrWriters := Generated.C01Fail.timeArrayAttrWriters,
+    newTouchesArgument := Generated.C01Fail.timeArrayNewTouchesArgument }
+
+def FailDiscipline.currentUniform : FailDiscipline :=
+  { FailDiscipline.current with attrWriters := Generated.C01Fail.uniformAttrWriters }
+
+/-- calls made with something that is not an ordinary, accepted argument -/
+inductive BadStep where
+  | conv (a : UnitArg)     -- `o.convert_unit(None | 'bogus' | 5 | [])`
+  | wrap (a : UnitArg)     -- `TimeArray(o, time_unit='bogus')`: the constructor's first statement refuses
+  | call (m : String)      -- method `m` with an argument it refuses (operand of another length, a string, `axis=…`, a key outside)
+  deriving Repr
+
+inductive HStep where
+  | ok (s : Step)
+  | bad (b : BadStep)
+  deriving Repr
+
+/-- outcome of a call on `o`: the attributes left ON `o`, whether it raised, and what the history goes on with -/
+structure XOut where
+  raw : RawAttrs
+  refused : Bool
+  next : Option TObj     -- `none`: the label of `o` names no unit any more (nothing further is modelled)
+  deriving Repr
+
+def RawAttrs.attrs? (r : RawAttrs) : Option Attrs := r.label.map fun l => ⟨l, r.fac⟩
+
+def stepBad (D : Discipline) (F : FailDiscipline) (o : TObj) : BadStep → XOut
+  | .conv a =>
+    let (r, raised) := execEvents F.convertEvents a o.attrs.raw
+    if raised then { raw := r, refused := true, next := r.attrs?.map fun at' => { o with attrs := at' } }
+    else match a.label? with
+      | some u => { raw := r, refused := false, next := (stepO D o (.conv u)).toOption }
+      | none => { raw := r, refused := false, next := Option.none }
+  | .wrap a =>
+    -- `if time_unit not in time_unit_conversion: raise` is the first statement; the source object is an argument
+    if a.isKey || F.newTouchesArgument then { raw := ⟨Option.none, 0⟩, refused := !a.isKey, next := Option.none }
+    else { raw := o.attrs.raw, refused := true, next := some o }
+  | .call m =>
+    if F.attrWriters.contains m then { raw := ⟨Option.none, 0⟩, refused := true, next := Option.none }
+    else { raw := o.attrs.raw, refused := true, next := some o }
+
+/-- every object of a history with refused calls in it; after a refused call the object it was applied to is listed
+again, as the call left it -/
+def traceX (D : Discipline) (F : FailDiscipline) (o : TObj) : List HStep → List TObj
+  | [] => [o]
+  | .ok s :: hs => match stepO D o s with
+    | .ok o' => o :: traceX D F o' hs
+    | .error _ => [o]
+  | .bad b :: hs => match (stepBad D F o b).next with
+    | some o' => o :: traceX D F o' hs
+    | Option.none => [o]
+
+/-- the accepted calls of a history: refused ones dropped, an accepted `convert_unit(None)` is `convert_unit('s')` -/
+def HStep.accepted? (F : FailDiscipline) : HStep → Option Step
+  | .ok s => some s
+  | .bad (.conv a) => if (execEvents F.convertEvents a ⟨Option.none, 0⟩).2 then Option.none else a.label?.map Step.conv
+  | .bad _ => Option.none
+
 /-! ### line protocol -/
 open Proto
 
@@ -350,19 +482,52 @@ def parseSteps? (s : String) : Option (List Step) :=
 /-- `T:<label>:<0|1>:<ps>~<factor>` -/
 def showO (o : TObj) : String := showT o.toTVal ++ "~" ++ toString o.attrs.fac
 
-/-- a history on one live object and a final operator with `val`: every object made on the way, then the result -/
-def histLine (D : Discipline) (src : TVal) (steps : List Step) (op : String) (val : Operand) : String :=
-  let tr := trace D (TObj.ofTVal src) steps
-  let o := tr.getLastD (TObj.ofTVal src)
-  let fin := match parseArith? op, parseCmp? op with
-    | some a, _ => (match arithO D a o val with
-      | .ok r => "ok " ++ showO r
-      | .error _ => "err ValueError")
-    | none, some c => (match compareO c o val with
-      | .ok (bs, sc) => s!"ok B:{if sc then "1" else "0"}:{showBoolList bs}"
-      | .error _ => "err ValueError")
-    | none, none => "bad-op"
-  "ok " ++ "|".intercalate (tr.map showO) ++ " # " ++ fin
+def parseUnitArg? (s : String) : Option UnitArg :=
+  if s = "none" then some .none else if s = "bogus" then some .bogus else (TimeUnit.ofString? s).map .unit
+
+/-- a step, or `bad=conv=<none|bogus|unit>`, `bad=wrap=<bogus>`, `bad=call=<method>` -/
+def parseHStep? (s : String) : Option HStep :=
+  match s.splitOn "=" with
+  | ["bad", "conv", a] => (parseUnitArg? a).map fun a => .bad (.conv a)
+  | ["bad", "wrap", a] => (parseUnitArg? a).map fun a => .bad (.wrap a)
+  | ["bad", "call", m] => some (.bad (.call m))
+  | _ => (parseStep? s).map .ok
+
+def parseHSteps? (s : String) : Option (List HStep) :=
+  if s = "-" then some [] else (s.splitOn ";").mapM parseHStep?
+
+def showRaw (o : TObj) (r : RawAttrs) : String :=
+  match r.label with
+  | some l => showO { o with attrs := ⟨l, r.fac⟩ }
+  | Option.none => s!"T:?:{if o.scalar then "1" else "0"}:{showIntList o.ps}~{r.fac}"
+
+/-- the printed objects of `traceX` (same recursion), and the object the final operator is applied to -/
+def runX (D : Discipline) (F : FailDiscipline) (o : TObj) : List HStep → List String × Option TObj
+  | [] => ([showO o], some o)
+  | .ok s :: hs => match stepO D o s with
+    | .ok o' => let (l, f) := runX D F o' hs; (showO o :: l, f)
+    | .error _ => ([showO o, "err-step"], Option.none)
+  | .bad b :: hs =>
+    let out := stepBad D F o b
+    match out.next with
+    | some o' => let (l, f) := runX D F o' hs; (showO o :: l, f)
+    | Option.none => ([showO o, showRaw o out.raw], Option.none)
+
+/-- a history on one live object (refused calls included) and a final operator with `val`: every object made on the
+way — after a refused call the object it was applied to again — then the result -/
+def histLine (D : Discipline) (F : FailDiscipline) (src : TVal) (steps : List HStep) (op : String) (val : Operand) : String :=
+  let (tr, last) := runX D F (TObj.ofTVal src) steps
+  let fin := match last with
+    | Option.none => "not-run"
+    | some o => match parseArith? op, parseCmp? op with
+      | some a, _ => (match arithO D a o val with
+        | .ok r => "ok " ++ showO r
+        | .error _ => "err ValueError")
+      | Option.none, some c => (match compareO c o val with
+        | .ok (bs, sc) => s!"ok B:{if sc then "1" else "0"}:{showBoolList bs}"
+        | .error _ => "err ValueError")
+      | Option.none, Option.none => "bad-op"
+  "ok " ++ "|".intercalate tr ++ " # " ++ fin
 
 def showExceptT : Except Err TVal → String
   | .ok t => "ok " ++ showT t
@@ -412,9 +577,10 @@ def handle (args : List String) : String :=
       | "min" => r .min | "max" => r .max | "sum" => r .sum | "ptp" => r .ptp
       | _ => "bad-op"
     | none => "bad-op"
-  | ["hist", cls, t, steps, op, v] => match parseT? t, parseSteps? steps, parseOperand? v with
+  | ["hist", cls, t, steps, op, v] => match parseT? t, parseHSteps? steps, parseOperand? v with
     | some t, some ss, some v =>
-      histLine (if cls = "U" then Discipline.currentUniform else Discipline.current) t ss op v
+      histLine (if cls = "U" then Discipline.currentUniform else Discipline.current)
+        (if cls = "U" then FailDiscipline.currentUniform else FailDiscipline.current) t ss op v
     | _, _, _ => "bad-op"
   | ["convert", t, u] => match parseT? t, TimeUnit.ofString? u with
     | some t, some u => "ok " ++ showT (convertUnit t u)
